@@ -230,3 +230,25 @@ func (e *Engine) VerifFibDump() []VerifFibNode {
 	verifWalkFib(e.fib, "", &out)
 	return out
 }
+
+// VerifPitLockState reports whether the engine's PIT lock (private field pitLock, found by name)
+// is free right now: "free", "held", or "<absent>" if there is no such field / it has no TryLock.
+// The lock is taken and released at once when it is free; nothing else changes.
+func (e *Engine) VerifPitLockState() string {
+	f, ok := verifField(e, "pitLock")
+	if !ok || !f.CanAddr() {
+		return VerifAbsent
+	}
+	l, ok := f.Addr().Interface().(interface {
+		TryLock() bool
+		Unlock()
+	})
+	if !ok {
+		return VerifAbsent
+	}
+	if !l.TryLock() {
+		return "held"
+	}
+	l.Unlock()
+	return "free"
+}
